@@ -178,6 +178,8 @@ pub trait RF: Clone + PartialEq + std::fmt::Debug {
     fn from_bytes(b: &[u8]) -> Option<Self>;
     /// parity used by the compressed format: canonical value (real part for Fq2) is odd
     fn is_odd(&self) -> bool;
+    /// from canonical 32-byte coordinates, real part first (1 part for Fq, 2 for Fq2)
+    fn from_parts(parts: &[[u8; 32]]) -> Option<Self>;
     fn sqr(&self) -> Self {
         self.mul(self)
     }
@@ -243,6 +245,12 @@ impl RF for Q {
     }
     fn is_odd(&self) -> bool {
         self.0.bit(0)
+    }
+    fn from_parts(parts: &[[u8; 32]]) -> Option<Self> {
+        if parts.len() != 1 {
+            return None;
+        }
+        Q::from_bytes(&parts[0])
     }
 }
 
@@ -360,6 +368,12 @@ impl RF for Q2 {
     }
     fn is_odd(&self) -> bool {
         self.c0.is_odd()
+    }
+    fn from_parts(parts: &[[u8; 32]]) -> Option<Self> {
+        if parts.len() != 2 {
+            return None;
+        }
+        Some(Q2 { c0: Q::from_bytes(&parts[0])?, c1: Q::from_bytes(&parts[1])? })
     }
 }
 
